@@ -85,7 +85,30 @@ macro_rules! no_macro_inputs {
         }
     )*};
 }
-no_macro_inputs!(u16, DbgArg, ());
+no_macro_inputs!(u16, ());
+
+impl MacroInputs for DbgArg {
+    fn table<F: for<'i> MockFn<Inputs<'i> = DbgArg>>(pred: u32) -> Option<&'static dyn Fn(&mut Matching<F>)> {
+        Some(match pred & 0xf {
+            0x0 => matching!((DbgArg(x)) if *x > 200),
+            0x1 => matching!(DbgArg(0)),
+            0x2 => matching!(DbgArg(1)),
+            0x3 => matching!(DbgArg(0 | 1)),
+            0x4 => matching!(DbgArg(2)),
+            0x5 => matching!(DbgArg(0) | DbgArg(2)),
+            0x6 => matching!(DbgArg(1..=2)),
+            0x7 => matching!(DbgArg(0..=2)),
+            0x8 => matching!(DbgArg(3)),
+            0x9 => matching!(DbgArg(0 | 3)),
+            0xa => matching!(DbgArg(1) | DbgArg(3)),
+            0xb => matching!((DbgArg(x)) if *x != 2),
+            0xc => matching!(DbgArg(2 | 3)),
+            0xd => matching!(DbgArg(0 | 2 | 3)),
+            0xe => matching!(DbgArg(1..=3)),
+            _ => matching!(_),
+        })
+    }
+}
 
 fn macro_matcher<I: MacroInputs, F: for<'i> MockFn<Inputs<'i> = I>>(pred: u32) -> Option<&'static dyn Fn(&mut Matching<F>)> {
     I::table::<F>(pred)
@@ -400,7 +423,7 @@ fn clause_for(spec: &ClauseSpec, uids: &[u16]) -> DynClause {
         M::GpU8 => opaque::clause_u8(|| GenMMock::gp.with_types::<u8>(), spec, uids),
         M::GpU16 => opaque::clause_u16(|| GenMMock::gp.with_types::<u16>(), spec, uids),
         other @ (M::LendA | M::LendB | M::LendMut | M::Lent | M::LendClone | M::LendVia | M::LendViaMut | M::LendZ | M::OwnSingle | M::OwnMulti
-        | M::OwnOpt | M::OwnRes | M::OwnTup | M::OwnTup1 | M::OwnVec | M::OwnTup3 | M::OwnDeepOpt | M::OwnDeepPoll) => {
+        | M::OwnOpt | M::OwnRes | M::OwnTup | M::OwnTup1 | M::OwnVec | M::OwnTup3 | M::OwnDeepOpt | M::OwnDeepPoll | M::OwnPollMulti | M::TermReport) => {
             panic!("{other:?} is configured through Config::specials")
         }
         M::Af => ref1::clause(AsyncAMock::af, spec, uids),
@@ -676,6 +699,20 @@ fn special_clause(sp: &Special) -> DynClause {
             OwnMock::own_deep_poll
                 .some_call(matching!(_))
                 .returns(std::task::Poll::Ready(Err::<u32, _>(Tracked::new(&tracker, *id)))),
+        ),
+        #[cfg(feature = "stdworld")]
+        Special::MockedReport { success } => DynClause::new(
+            unimock::mock::std::process::TerminationMock::report
+                .each_call(matching!())
+                .returns(if *success { std::process::ExitCode::SUCCESS } else { std::process::ExitCode::FAILURE }),
+        ),
+        #[cfg(not(feature = "stdworld"))]
+        Special::MockedReport { .. } => DynClause::new(()),
+        Special::OwnPollMulti { quant, id } => quantified(
+            OwnMock::own_poll_multi
+                .each_call(matching!(_))
+                .returns(std::task::Poll::Ready(Err::<u32, _>(TrackedC::new(&tracker, *id)))),
+            *quant,
         ),
         Special::OwnVec { id } => DynClause::new(
             OwnMock::own_vec
